@@ -599,7 +599,10 @@ pub async fn drive(case: &Case) -> Outcome {
     let factory: Arc<dyn ProductIO> = Arc::new(net.factory());
     let router = Arc::new(QuicRouter::default());
     let captured = Arc::new(crate::qlogcap::Captured::default());
-    let legacy_store = crate::qlogcap::MemStorage::default();
+    let legacy_store = crate::qlogcap::MemStorage {
+        fail_after: (case.qlog == crate::QlogMode::LegacyFailing).then(|| [0usize, 150, 1500, 20_000][(case.seed % 4) as usize]),
+        ..Default::default()
+    };
     let qlog: Arc<dyn qevent::telemetry::QLog + Send + Sync> = {
         use crate::{QlogMode, qlogcap::CaptureLog};
         let net2 = net.clone();
@@ -637,7 +640,7 @@ pub async fn drive(case: &Case) -> Outcome {
             QlogMode::CaptureRaw => Arc::new(CaptureLog { sink: captured.clone(), raw: true, filter: None, discard: false, on_event: Some(on_event) }),
             QlogMode::Filtered => Arc::new(CaptureLog { sink: captured.clone(), raw: false, filter: Some(case.seed | 1), discard: false, on_event: None }),
             QlogMode::DiscardAll => Arc::new(CaptureLog { sink: captured.clone(), raw: false, filter: None, discard: true, on_event: None }),
-            QlogMode::Legacy => Arc::new(qevent::telemetry::handy::LegacySeqLogger::new(legacy_store.clone())),
+            QlogMode::Legacy | QlogMode::LegacyFailing => Arc::new(qevent::telemetry::handy::LegacySeqLogger::new(legacy_store.clone())),
         }
     };
 
